@@ -2947,7 +2947,8 @@ impl platform::Symbol for SymtabEntry {
 pub(crate) fn convert_elf_visibility(st_visibility: u8) -> Visibility {
     match st_visibility {
         object::elf::STV_PROTECTED => Visibility::Protected,
-        object::elf::STV_HIDDEN => Visibility::Hidden,
+        // STV_INTERNAL is at least as restrictive as STV_HIDDEN.
+        object::elf::STV_HIDDEN | object::elf::STV_INTERNAL => Visibility::Hidden,
         _ => Visibility::Default,
     }
 }
